@@ -1,21 +1,25 @@
 #!/bin/bash
-# mutcheck.sh <worktree> <patch.diff> <tier> <prop> [<prop>...]
+# mutcheck.sh <worktree> <patch.diff|none> <tier> <prop> [<prop>...]
 # Development aid (not a registered check): builds the harness against a scratch worktree of pdfcpu with a
-# seeded change applied and runs the named checks against it. Evidence/replays go to a scratch dir.
-# The registered checks always use /repo; this script only saves re-applying patches to /repo.
+# seeded change applied and runs the named checks against it. Everything it writes goes to a scratch
+# VERIF_HOME under /tmp. The registered checks always use /repo.
 set -u
 WT=$1; PATCH=$2; TIER=$3; shift 3
 export GOFLAGS=-mod=mod GOPROXY=off GOTOOLCHAIN=local
 V=/verif
 TAG=$(basename $WT)-$$
-OUT=/tmp/mutcheck-$TAG; mkdir -p $OUT
+OUT=/tmp/mutcheck-$TAG; mkdir -p $OUT/.build
 git -C $WT checkout -q -- . && git -C $WT clean -fdq
 if [ "$PATCH" != "none" ]; then git -C $WT apply "$PATCH" || { echo "patch does not apply"; exit 2; }; fi
 sed "s#=> /repo#=> $WT#" $V/harness/go.mod > $OUT/go.mod; cp $V/harness/go.sum $OUT/go.sum
+cp $V/known_findings.json $OUT/
 VERIF_REPO=$WT python3 $V/harness/overlay/mkoverlay.py "$(go1.26.8 env GOROOT)" $OUT/ov >/dev/null || exit 2
-(cd $V/harness && go1.26.8 build -modfile=$OUT/go.mod -overlay $OUT/ov/overlay.json -o $OUT/verifsim ./cmd/verifsim) || { echo BUILD-FAILED; git -C $WT checkout -q -- .; exit 2; }
+(cd $V/harness && go1.26.8 build -modfile=$OUT/go.mod -overlay $OUT/ov/overlay.json -o $OUT/.build/verifsim ./cmd/verifsim) || { echo BUILD-FAILED; git -C $WT checkout -q -- .; exit 2; }
 for p in "$@"; do
-  VERIF_EVIDENCE_DIR=$OUT/evidence VERIF_REPLAY_DIR=$OUT/replays $OUT/verifsim check $p $TIER > $OUT/$p.log 2>&1; rc=$?
+  if [ "$p" = "C40" ]; then
+    (cd $V/harness && go1.26.8 build -race -modfile=$OUT/go.mod -overlay $OUT/ov/overlay.json -o $OUT/.build/verifsim-race ./cmd/verifsim) || { echo RACE-BUILD-FAILED; exit 2; }
+  fi
+  VERIF_HOME=$OUT $OUT/.build/verifsim check $p $TIER > $OUT/$p.log 2>&1; rc=$?
   echo "[$TAG] $p $TIER exit=$rc $(grep -c '^VIOLATION' $OUT/$p.log) violation(s): $(grep -m2 'signature=' $OUT/$p.log | sed 's/.*signature=//' | tr '\n' ' ')"
 done
 git -C $WT checkout -q -- . && git -C $WT clean -fdq
